@@ -136,6 +136,7 @@ type Sim struct {
 	pctChange   []int64
 	lockOrder   uint64
 	boltMu      Mutex
+	finishOnce  sync.Once
 	preemptedTx bool  // a bolt transaction body started goroutines and became preemptible
 	BlockedRW   int64 // probe: RLock blocked by a pending writer
 	BlockedLock int64 // probe: Lock/RLock had to wait
@@ -630,6 +631,13 @@ func (s *Sim) waitGraph() string {
 	return b.String()
 }
 
+// finish ends Run.  It may be reached twice when part of a run executes on a
+// goroutine the scheduler does not own (a bolt transaction body that runs
+// goroutines of its own).
+func (s *Sim) finish() {
+	s.finishOnce.Do(func() { close(s.done) })
+}
+
 func (s *Sim) exit(t *Task) {
 	t.state = stDone
 	if s.aborted {
@@ -649,7 +657,7 @@ func (s *Sim) exit(t *Task) {
 				return
 			}
 		}
-		close(s.done)
+		s.finish()
 		return
 	}
 	t.idx++
@@ -672,7 +680,7 @@ func (s *Sim) exit(t *Task) {
 		}
 		switch {
 		case alldone:
-			close(s.done)
+			s.finish()
 			return
 		case ext != nil && !blocked:
 			ext.state = stRunnable
@@ -1414,7 +1422,7 @@ func (s *Sim) handOverFromOutside(t *Task, site string, ok bool) {
 				return
 			}
 		}
-		close(s.done)
+		s.finish()
 		return
 	}
 	if next != t {
